@@ -780,12 +780,12 @@ macro_rules! rt5_connect_group {
     };
 }
 //@ props: C01
-//@ tier: quick
+//@ tier: thorough
 //@ functions: v5::Codec::encodev, EncodeLtd for Connect, Connect::properties_len, decode::decode_packet, Connect::decode
 //@ bounds: group 1 symbolic (clean start, keep-alive full width, client id / username / password 0..=1 byte, optional), all other fields default
 //@ unwindset: utf8_is_valid=3 slice_eq=3 expect_lp=5 Connect=3 clone=3 decode_variable_length_cursor=6 spec_check_connect_props=3
 //@ assumes: strings well-formed UTF-8
-//@ mem: 10  timeout: 1200
+//@ mem: 20  timeout: 2400
 //@ desc: v5 CONNECT round trip, fixed part: protocol name/level, flags byte, keep-alive, client id, username, password
 rt5_connect_group!(rt5_connect_g1, |c| {
     c.clean_start = vk::any_bool();
@@ -795,12 +795,12 @@ rt5_connect_group!(rt5_connect_g1, |c| {
     c.password = vh::any_opt_bin::<1>();
 }, c.username.is_some() && c.password.is_some() && c.clean_start);
 //@ props: C01
-//@ tier: quick
+//@ tier: thorough
 //@ functions: v5::Codec::encodev, EncodeLtd for Connect, encode_property(_default), decode::decode_packet, Connect::decode
 //@ bounds: group 2 symbolic (session expiry full width, auth method / auth data 0..=1 byte optional, request problem info), other fields default
 //@ unwindset: utf8_is_valid=3 slice_eq=3 expect_lp=5 Connect=6 clone=3 decode_variable_length_cursor=6 spec_check_connect_props=6
 //@ assumes: strings well-formed UTF-8
-//@ mem: 10  timeout: 1200
+//@ mem: 20  timeout: 2400
 //@ desc: v5 CONNECT round trip, properties 0x11 0x15 0x16 0x17 (ids and defaults per spec 3.1.2.11)
 rt5_connect_group!(rt5_connect_g2, |c| {
     c.session_expiry_interval_secs = vk::any_u32();
@@ -809,11 +809,11 @@ rt5_connect_group!(rt5_connect_g2, |c| {
     c.request_problem_info = vk::any_bool();
 }, c.session_expiry_interval_secs != 0 && c.auth_method.is_some() && c.auth_data.is_some() && !c.request_problem_info);
 //@ props: C01
-//@ tier: quick
+//@ tier: thorough
 //@ functions: v5::Codec::encodev, EncodeLtd for Connect, encode_property(_default), decode::decode_packet, Connect::decode
 //@ bounds: group 3 symbolic (request response info, receive max, topic alias max, max packet size - full width, optional), other fields default
 //@ unwindset: Connect=6 clone=3 decode_variable_length_cursor=6 spec_check_connect_props=6 expect_lp=5 slice_eq=3 utf8_is_valid=3
-//@ mem: 10  timeout: 1200
+//@ mem: 20  timeout: 2400
 //@ desc: v5 CONNECT round trip, properties 0x19 0x21 0x22 0x27
 rt5_connect_group!(rt5_connect_g3, |c| {
     c.request_response_info = vk::any_bool();
@@ -822,24 +822,24 @@ rt5_connect_group!(rt5_connect_g3, |c| {
     c.max_packet_size = vh::any_opt_nz32();
 }, c.request_response_info && c.receive_max.is_some() && c.topic_alias_max != 0 && c.max_packet_size.is_some());
 //@ props: C01
-//@ tier: quick
+//@ tier: thorough
 //@ functions: v5::Codec::encodev, EncodeLtd for Connect, Encode for UserProperties, decode::decode_packet, Connect::decode
 //@ bounds: group 4 symbolic (0..=2 user properties with 0..=1-byte strings, session expiry), other fields default
 //@ unwindset: utf8_is_valid=3 slice_eq=3 expect_lp=5 Connect=5 clone=4 decode_variable_length_cursor=6 spec_check_connect_props=5 any_user_props=4 UserProperties=4
 //@ assumes: strings well-formed UTF-8
-//@ mem: 10  timeout: 1200
+//@ mem: 20  timeout: 2400
 //@ desc: v5 CONNECT round trip, user properties (0x26, repeatable, order preserved) next to another property
 rt5_connect_group!(rt5_connect_g4, |c| {
     c.user_properties = any_user_props::<2, 1>();
     c.session_expiry_interval_secs = vk::any_u32();
 }, c.user_properties.len() == 2 && c.session_expiry_interval_secs != 0);
 //@ props: C01
-//@ tier: quick
+//@ tier: thorough
 //@ functions: v5::Codec::encodev, EncodeLtd for Connect (will part), LastWill::properties_len, decode::decode_packet, Connect::decode, decode_last_will
 //@ bounds: will present: QoS/retain symbolic, topic and message 0..=1 byte, will delay (full width) and payload-format flag optional; all will other properties absent
 //@ unwindset: utf8_is_valid=3 slice_eq=3 expect_lp=5 Connect=3 decode_last_will=4 spec_check_will_props=4 clone=3 decode_variable_length_cursor=6 spec_check_connect_props=3
 //@ assumes: strings well-formed UTF-8
-//@ mem: 10  timeout: 1200
+//@ mem: 20  timeout: 2400
 //@ desc: v5 CONNECT with a will, part 1: will flag bits (QoS, retain), will properties 0x18 0x01, will topic and payload
 rt5_connect_group!(rt5_connect_w1, |c| {
     c.client_id = vh::any_str::<1>();
@@ -850,12 +850,12 @@ rt5_connect_group!(rt5_connect_w1, |c| {
     c.last_will = Some(w);
 }, c.last_will.as_ref().map_or(false, |w| w.will_delay_interval_sec.is_some() && w.is_utf8_payload == Some(false) && w.retain));
 //@ props: C01
-//@ tier: quick
+//@ tier: thorough
 //@ functions: v5::Codec::encodev, EncodeLtd for Connect (will part), decode_last_will
 //@ bounds: will present with correlation data, content type (0..=1 byte), message expiry (full width) optional; other will properties absent
 //@ unwindset: utf8_is_valid=3 slice_eq=3 expect_lp=5 Connect=3 decode_last_will=5 spec_check_will_props=5 clone=3 decode_variable_length_cursor=6 spec_check_connect_props=3
 //@ assumes: strings well-formed UTF-8
-//@ mem: 10  timeout: 1200
+//@ mem: 20  timeout: 2400
 //@ desc: v5 CONNECT with a will, part 2: will properties 0x09 0x02 0x03
 rt5_connect_group!(rt5_connect_w2, |c| {
     let w = LastWill { qos: QoS::AtMostOnce, retain: false, topic: vh::any_str::<1>(), message: Bytes::new(),
@@ -864,12 +864,12 @@ rt5_connect_group!(rt5_connect_w2, |c| {
     c.last_will = Some(w);
 }, c.last_will.as_ref().map_or(false, |w| w.correlation_data.is_some() && w.message_expiry_interval.is_some() && w.content_type.is_some()));
 //@ props: C01
-//@ tier: quick
+//@ tier: thorough
 //@ functions: v5::Codec::encodev, EncodeLtd for Connect (will part), decode_last_will
 //@ bounds: will present with response topic (0..=1 byte) optional and 0..=2 user properties (0..=1-byte strings); other will properties absent
 //@ unwindset: utf8_is_valid=3 slice_eq=3 expect_lp=5 Connect=3 decode_last_will=5 spec_check_will_props=5 clone=4 decode_variable_length_cursor=6 spec_check_connect_props=3 any_user_props=4 UserProperties=4
 //@ assumes: strings well-formed UTF-8
-//@ mem: 10  timeout: 1200
+//@ mem: 20  timeout: 2400
 //@ desc: v5 CONNECT with a will, part 3: will properties 0x08 0x26
 rt5_connect_group!(rt5_connect_w3, |c| {
     let w = LastWill { qos: QoS::AtMostOnce, retain: false, topic: vh::any_str::<1>(), message: Bytes::new(),
@@ -965,7 +965,7 @@ macro_rules! rt5_connack_group {
     };
 }
 //@ props: C01
-//@ tier: quick
+//@ tier: thorough
 //@ functions: v5::Codec::encodev, EncodeLtd for ConnectAck, encode_property(_default), var_int_len_from_size, decode::decode_packet, ConnectAck::decode
 //@ bounds: all 22 reason codes; group 1 symbolic (session present, session expiry, receive max, max QoS - full width), other properties default
 //@ unwindset: ConnectAck=5 spec_check_connack_props=5 decode_variable_length_cursor=6 clone=3 expect_lp=3 slice_eq=3 utf8_is_valid=3
@@ -978,11 +978,11 @@ rt5_connack_group!(rt5_connack_g1, |a| {
     a.max_qos = vh::any_qos();
 }, a.session_expiry_interval_secs.is_some() && a.receive_max.get() != 65535 && a.max_qos == QoS::AtMostOnce);
 //@ props: C01
-//@ tier: quick
+//@ tier: thorough
 //@ functions: v5::Codec::encodev, EncodeLtd for ConnectAck, decode::decode_packet, ConnectAck::decode
 //@ bounds: group 2 symbolic (retain available, max packet size incl. 0, topic alias max, wildcard / subscription-id availability), other properties default
 //@ unwindset: ConnectAck=7 spec_check_connack_props=7 decode_variable_length_cursor=6 clone=3 expect_lp=3 slice_eq=3 utf8_is_valid=3
-//@ mem: 10  timeout: 1200
+//@ mem: 20  timeout: 2400
 //@ desc: v5 CONNACK round trip: properties 0x25 0x27 0x22 0x28 0x29 and their defaults
 rt5_connack_group!(rt5_connack_g2, |a| {
     a.retain_available = vk::any_bool();
@@ -992,7 +992,7 @@ rt5_connack_group!(rt5_connack_g2, |a| {
     a.subscription_identifiers_available = vk::any_bool();
 }, !a.retain_available && a.max_packet_size.is_some() && a.topic_alias_max != 0 && !a.wildcard_subscription_available && !a.subscription_identifiers_available);
 //@ props: C01
-//@ tier: quick
+//@ tier: thorough
 //@ functions: v5::Codec::encodev, EncodeLtd for ConnectAck, decode::decode_packet, ConnectAck::decode
 //@ bounds: group 3 symbolic (shared subscription availability, server keep-alive, assigned client id and response info 0..=1 byte optional)
 //@ unwindset: ConnectAck=6 spec_check_connack_props=6 decode_variable_length_cursor=6 clone=3 expect_lp=3 slice_eq=3 utf8_is_valid=3
@@ -1006,7 +1006,7 @@ rt5_connack_group!(rt5_connack_g3, |a| {
     a.response_info = vh::any_opt_str::<1>();
 }, !a.shared_subscription_available && a.server_keepalive_sec.is_some() && a.assigned_client_id.is_some() && a.response_info.is_some());
 //@ props: C01
-//@ tier: quick
+//@ tier: thorough
 //@ functions: v5::Codec::encodev, EncodeLtd for ConnectAck, decode::decode_packet, ConnectAck::decode
 //@ bounds: group 4 symbolic (server reference, auth method, auth data 0..=1 byte, optional)
 //@ unwindset: ConnectAck=5 spec_check_connack_props=5 decode_variable_length_cursor=6 clone=3 expect_lp=3 slice_eq=3 utf8_is_valid=3
@@ -1019,12 +1019,12 @@ rt5_connack_group!(rt5_connack_g4, |a| {
     a.auth_data = vh::any_opt_bin::<1>();
 }, a.server_reference.is_some() && a.auth_method.is_some() && a.auth_data.is_some());
 //@ props: C01
-//@ tier: quick
+//@ tier: thorough
 //@ functions: v5::Codec::encodev, EncodeLtd for ConnectAck, encode_opt_props, encoded_size_opt_props, reduce_limit, decode::decode_packet, ConnectAck::decode
 //@ bounds: group 5 symbolic (reason string 0..=1 byte optional, 0..=2 user properties with 0..=1-byte strings, server keep-alive)
 //@ unwindset: ConnectAck=6 spec_check_connack_props=6 decode_variable_length_cursor=6 clone=4 expect_lp=3 slice_eq=3 utf8_is_valid=3 any_user_props=4 encode_opt_props=4 encoded_size_opt_props=4
 //@ assumes: strings well-formed UTF-8
-//@ mem: 10  timeout: 1200
+//@ mem: 20  timeout: 2400
 //@ desc: v5 CONNACK round trip: diagnostics 0x1F 0x26 next to another property
 rt5_connack_group!(rt5_connack_g5, |a| {
     a.reason_string = vh::any_opt_str::<1>();
@@ -1437,7 +1437,7 @@ macro_rules! bd5_reason_props {
 //@ desc: v5 DISCONNECT body: accepted iff known reason code and a well-formed property section holding only 0x11 0x1C 0x1F (each once) / 0x26, nothing after it. Recorded leniency: reason 0x8C is accepted although 3.14.2.1 does not list it
 bd5_reason_props!(bd5_disconnect, 0xE0, spec_disconnect_reason, P_DISCONNECT, Packet::Disconnect, 8, false);
 //@ props: C02
-//@ tier: quick
+//@ tier: thorough
 //@ functions: v5 decode::decode_packet, Disconnect::decode, v5::Codec::encodev, EncodeLtd for Disconnect
 //@ bounds: every body of 0..=7 arbitrary bytes
 //@ unwindset: utf8_is_valid=7 spec_utf8=7 slice_eq=7 Disconnect=5 Auth=5 spec_walk_props=5 decode_variable_length_cursor=6 encode_opt_props=3 encoded_size_opt_props=3 clone=3 expect_lp=7 extend_from_slice=8
@@ -1453,11 +1453,11 @@ bd5_reason_props!(bd5_disconnect_st, 0xE0, spec_disconnect_reason, P_DISCONNECT,
 //@ desc: v5 AUTH body: accepted iff reason in {0x00,0x18,0x19} and a well-formed property section holding only 0x15 0x16 0x1F (each once) / 0x26
 bd5_reason_props!(bd5_auth, 0xF0, spec_auth_reason, P_AUTH, Packet::Auth, 8, false);
 //@ props: C02
-//@ tier: quick
+//@ tier: thorough
 //@ functions: v5 decode::decode_packet, Auth::decode, v5::Codec::encodev, EncodeLtd for Auth
 //@ bounds: every body of 0..=7 arbitrary bytes
 //@ unwindset: utf8_is_valid=7 spec_utf8=7 slice_eq=7 Disconnect=5 Auth=5 spec_walk_props=5 decode_variable_length_cursor=6 encode_opt_props=3 encoded_size_opt_props=3 clone=3 expect_lp=7 extend_from_slice=8
-//@ mem: 10  timeout: 1500
+//@ mem: 24  timeout: 2400
 //@ desc: v5 AUTH body: whatever is accepted is stable
 bd5_reason_props!(bd5_auth_st, 0xF0, spec_auth_reason, P_AUTH, Packet::Auth, 7, true);
 
@@ -1484,7 +1484,7 @@ vharness! {
 
 vharness! {
     //@ props: C02
-    //@ tier: quick
+    //@ tier: thorough
     //@ functions: v5 decode::decode_packet, Subscribe::decode, SubscriptionOptions::decode, decode_variable_length_cursor
     //@ bounds: every body of 0..=9 arbitrary bytes
     //@ unwindset: utf8_is_valid=7 spec_utf8=7 slice_eq=7 Subscribe=5 spec_walk_props=5 decode_variable_length_cursor=6 clone=4 expect_lp=7
@@ -1581,7 +1581,7 @@ vharness! {
 
 vharness! {
     //@ props: C02
-    //@ tier: quick
+    //@ tier: thorough
     //@ functions: v5 decode::decode_packet, ConnectAck::decode, take_properties, Option<T>::read_value
     //@ bounds: every body of 0..=9 arbitrary bytes
     //@ unwindset: utf8_is_valid=6 spec_utf8=6 slice_eq=6 ConnectAck=6 spec_walk_props=6 decode_variable_length_cursor=6 encode_opt_props=3 encoded_size_opt_props=3 clone=3 expect_lp=6 spec_check_connack_props=8
